@@ -21,7 +21,7 @@ def updEnv (pi : Rat) (t : Tank) (prev head demand simT prevT : Rat) : Env := fu
 /-- `update_shape_is_model`: the regenerated body of `update_tank_heads` computes `Tank.updateHead` (extrapolating lookup, the code
 as it is since 53f21792) — for every tank, head history, demand and pair of times -/
 theorem update_shape_is_model (pi : Rat) (t : Tank) (hx : t.extrap = true) (prev head demand simT prevT : Rat) :
-    (Gen.updateShape.run t [] (updEnv pi t prev head demand simT prevT)) .newHead
+    (Gen.updateShape.run t [] .level (updEnv pi t prev head demand simT prevT)) .newHead
       = updateHead pi t prev head demand (simT - prevT) := by
   cases hc : t.curve with
   | none =>
@@ -58,7 +58,7 @@ theorem slopeLast_eq (x0 y0 : Rat) (rest : List (Rat × Rat)) (hne : rest ≠ []
 /-- `interp_extrap_shape_is_model`: the regenerated `_interp_extrapolate` is `Tank.interpX` on curves with at least two points
 and plain `np.interp` on a single point -/
 theorem interp_extrap_shape_is_model (t : Tank) (x0 y0 : Rat) (rest : List (Rat × Rat)) (x : Rat) (env : Env) (hxv : env .x = x) :
-    (Gen.interpExtrapShape.run t ((x0, y0) :: rest) env) .y = interpX x ((x0, y0) :: rest) := by
+    (Gen.interpExtrapShape.run t ((x0, y0) :: rest) .level env) .y = interpX x ((x0, y0) :: rest) := by
   cases rest with
   | nil =>
     simp [Gen.interpExtrapShape, sblock, S.run, E.eval, C.eval, Env.set, hxv, interpX, slopeFirst, slopeLastFrom]
@@ -72,10 +72,43 @@ theorem interp_extrap_shape_is_model (t : Tank) (x0 y0 : Rat) (rest : List (Rat 
 /-- `get_volume_shape_is_model` -/
 theorem get_volume_shape_is_model (pi : Rat) (t : Tank) (hx : t.extrap = true) (lvl : Rat) (env : Env)
     (h1 : env .level = lvl) (h2 : env .mathPi = pi) (h3 : env .diameter = t.diam) :
-    (Gen.getVolumeShape.run t [] env) .vol = getVolume pi t lvl := by
+    (Gen.getVolumeShape.run t [] .level env) .vol = getVolume pi t lvl := by
   cases hc : t.curve with
   | none => simp [Gen.getVolumeShape, sblock, S.run, E.eval, C.eval, Env.set, getVolume, area, hc, h1, h2, h3]
   | some c => simp [Gen.getVolumeShape, sblock, S.run, E.eval, C.eval, Env.set, getVolume, hc, hx, cinterp, h1]
+
+/-- what the backtrack block of `TankLevelCondition.evaluate` reads -/
+def evEnv (pi : Rat) (t : Tank) (cur thr q : Rat) : Env := fun v =>
+  match v with
+  | .curValue => cur | .threshValue => thr | .mathPi => pi | .diameter => t.diam | .demand => q | .elevation => t.elev | _ => 0
+
+/-- `backtrack_shape_is_model`: at a crossing with a usable demand, the regenerated backtrack block of
+`TankLevelCondition.evaluate` raises exactly when `Tank.evalLevel` does (pressure condition on a volume-curve tank) and otherwise
+leaves `_backtrack` = `Tank.evalLevel`'s: floor (not ceil, not truncation), the sign of `cur − thr`, division by the stored demand,
+area from the diameter, `get_volume` at LEVELS (head thresholds reduced by the elevation) -/
+theorem backtrack_shape_is_model (pi : Rat) (t : Tank) (hx : t.extrap = true) (c : LevelCond) (head q last : Rat) (hq : q ≠ 0)
+    (h1 : (foldRel c.rel).holds (attrValue t head c.attr) c.thr = true) (h2 : (foldRel c.rel).holds last c.thr = false) :
+    ((evalLevel pi t c head (some q) last).raised = ((Gen.backtrackShape.run t [] c.attr (evEnv pi t (attrValue t head c.attr) c.thr q)) .raised == 1))
+    ∧ ((evalLevel pi t c head (some q) last).raised = false →
+        (Gen.backtrackShape.run t [] c.attr (evEnv pi t (attrValue t head c.attr) c.thr q)) .backtrack
+          = ((evalLevel pi t c head (some q) last).back : Rat)) := by
+  have hq' : (q == 0) = false := by simpa using hq
+  cases hc : t.curve with
+  | none =>
+    simp [Gen.backtrackShape, sblock, S.run, E.eval, C.eval, evEnv, evalLevel, h1, h2, hc, hq']
+  | some crv =>
+    cases ha : c.attr with
+    | pressure =>
+      rw [ha] at h1
+      simp [Gen.backtrackShape, sblock, S.run, E.eval, C.eval, evEnv, evalLevel, h1, h2, hc, hq', ha]
+    | head =>
+      rw [ha] at h1
+      simp only [attrValue] at h1
+      simp [Gen.backtrackShape, sblock, S.run, E.eval, C.eval, evEnv, evalLevel, h1, h2, hc, hq', ha, getVolume, hx, attrValue]
+    | level =>
+      rw [ha] at h1
+      simp only [attrValue] at h1
+      simp [Gen.backtrackShape, sblock, S.run, E.eval, C.eval, evEnv, evalLevel, h1, h2, hc, hq', ha, getVolume, hx, attrValue]
 
 /-- `postsolve_shape_is_model`: check, stable ascending priority sort, run every triggered control — `Controls.runPass` -/
 theorem postsolve_shape_is_model (due : List Ctl) (ls : Links) : runPTok Gen.postsolveShape due ls = some (runPass due ls) := by
